@@ -1,5 +1,5 @@
 """C18 — failures to write output are reported, never silently ignored"""
-import os, re, shutil
+import subprocess, os, re, shutil
 import core, gen, e2e
 from core import hx, unhx
 
@@ -27,7 +27,7 @@ def unit_text(rnd, big):
     return t
 
 
-CREATE_FAULTS = ['dangling', 'loop', 'notdir', 'toolong', 'procfile']
+CREATE_FAULTS = ['dangling', 'loop', 'notdir', 'toolong', 'procfile', 'eacces']
 
 
 def gen_case(rnd):
@@ -50,6 +50,16 @@ def run(case_rnd):
     import random
     rnd = random.Random(seed)
     base = e2e.fresh_dir()
+    as_uid, binary = None, None
+    if case['fault'] == 'eacces':
+        # a permission fault needs an unprivileged generator: staged below /tmp with open permissions and a copy of the binary
+        import tempfile
+        shutil.rmtree(base, ignore_errors=True)
+        base = tempfile.mkdtemp(prefix='qverif-c18-', dir='/tmp')
+        os.chmod(base, 0o755)
+        binary = os.path.join(base, 'quadlet-rs')
+        shutil.copy(core.BIN, binary)
+        as_uid = 1001
     os.makedirs(os.path.join(base, 'src'))
     for nm in case['names']:
         with open(os.path.join(base, 'src', nm + '.container'), 'w') as f:
@@ -66,11 +76,18 @@ def run(case_rnd):
             os.symlink('/dev/full', os.path.join(out, victim + '.service'))
         elif case['fault'] == 'dir':
             os.makedirs(os.path.join(out, victim + '.service'))
+        elif case['fault'] == 'eacces':
+            os.chmod(out, 0o777)
+            with open(os.path.join(out, victim + '.service'), 'w') as f:
+                f.write('owned by root, read-only\n')
+            os.chmod(os.path.join(out, victim + '.service'), 0o444)
         elif case['fault'] in CREATE_FAULTS:
             target = {'dangling': os.path.join(base, 'no-such-dir', 'x.service'), 'loop': victim + '.service', 'notdir': '/dev/null/x.service',
                       'toolong': os.path.join(base, 'n' * 300), 'procfile': '/proc/version'}[case['fault']]
             os.symlink(target, os.path.join(out, victim + '.service'))
-    rc, so, se = e2e.run_binary(['--no-kmsg-log', out], os.path.join(base, 'src'), fsize_limit=case.get('limit'))
+    if as_uid is not None:
+        subprocess.run(['chmod', '-R', 'a+rX', os.path.join(base, 'src')])
+    rc, so, se = e2e.run_binary(['--no-kmsg-log', out], os.path.join(base, 'src'), fsize_limit=case.get('limit'), as_uid=as_uid, binary=binary)
     snap = e2e.snapshot(out) if os.path.isdir(out) else {}
     # what would have been written (piece sizes) from a dry run
     rc2, so2, se2 = e2e.run_binary(['--dry-run', '--no-kmsg-log', out], os.path.join(base, 'src'))
